@@ -657,6 +657,8 @@ def wseq_store(ctx, s, i, v):
         if x is None:
             # python None in a typed slot: the distinguished constant none!<Sort> (e.g. the marker deed's dog)
             return z3.Const("none!" + a.sort().range().name(), a.sort().range())
+        if isinstance(x, Ref) and x.kind == "buf" and _base_ty(ty) == "bytes":
+            x = ctx.st(x)["v"]      # a bytearray stored in a bytes slot: by value (later mutation through the alias is not modelled: A-ITER)
         return z(x, _base_ty(ty) if _base_ty(ty) in ("real", "int") else None)
     s["arrs"] = [z3.Store(a, i, term(x, ty, a)) for a, x, ty in zip(s["arrs"], vals, s["shape"])]
     if s.get("on_store"):
